@@ -188,6 +188,27 @@ def judge_circ(case, ctx, prefix):
                     ctx.violation(f'{prefix}/{mode}/capacitor-sign', f'capacitor {cid!r} reports power {p!r} (must be purely reactive, Q <= 0)', {})
                 ctx.count('reactive_rules_checked')
     mag = balance(ctx, prefix, mode, sign, P, tol, pscale)
+    if mode in ('rms', 'peak'):
+        # peak_values is a public field read at every query: the same solved object switched to the other convention must report
+        # the power that belongs to the voltages and currents it now reports
+        other = mode == 'rms'
+        try:
+            sol.peak_values = other
+            switched = True
+        except Exception:
+            switched = False
+        if switched:
+            ctx.count('solutions_switched_between_rms_and_peak')
+            for b in ref_net['branches'][:3]:
+                cid = b['id']
+                p, v, i = call(sol.get_power, cid), call(sol.get_voltage, cid), call(sol.get_current, cid)
+                if any(raised(x) for x in (p, v, i)):
+                    break
+                p, v, i = complex(p), complex(v), complex(i)
+                expect = 0.5 * v * i.conjugate() if other else v * i.conjugate()
+                if abs(p - expect) > tol * max(abs(v) * abs(i), pscale * 1e-6) * 2:
+                    ctx.violation(f'{prefix}/{mode}/definition-after-switching-the-convention', f'P({cid!r}) = {p!r} after peak_values was set to {other}, but the same object now reports V, I with {"V conj(I)/2" if other else "V conj(I)"} = {expect!r}', {})
+                    break
     ctx.evaluated(circdesc.signature(cd, (mode, w == 0)), any(abs(x) > 0 for x in P.values()))
     ctx.sample(case)
 
